@@ -67,6 +67,10 @@ type HSConfig struct {
 	// FailRemoteCBC / FailRemoteCBS: how often the remote-key callback of
 	// the client / server fails (the application could not persist the key).
 	FailRemoteCBC, FailRemoteCBS int
+	// ReuseC / ReuseS: use this party (its ConnData, with whatever an earlier
+	// handshake stored in it) instead of a fresh one; the handshake pattern
+	// is then the one its ConnData asks for.
+	ReuseC, ReuseS *NoiseSide
 	// EphSeed, if non-zero, makes both machines draw their ephemeral keys
 	// from a PRNG seeded with it, so that a session can be reproduced
 	// bit for bit.
@@ -126,6 +130,14 @@ func RunHandshake(cfg HSConfig) *HSResult {
 	}
 	c := newSide(ckey, remC, cfg.PassC, nil)
 	s := newSide(cfg.KeyS, remS, cfg.PassS, cfg.Auth)
+	if cfg.ReuseC != nil {
+		c = cfg.ReuseC
+		c.M, c.NewErr, c.Err, c.Done = nil, nil, nil, false
+	}
+	if cfg.ReuseS != nil {
+		s = cfg.ReuseS
+		s.M, s.NewErr, s.Err, s.Done = nil, nil, nil, false
+	}
 	res := &HSResult{C: c, S: s}
 	c.FailRemoteCB, s.FailRemoteCB = cfg.FailRemoteCBC, cfg.FailRemoteCBS
 	if !forceC {
